@@ -363,7 +363,7 @@ def _detect_input_type(data):
         return SigInput.FILE_LIKE
     elif hasattr(data, "find"):  # check if it is uncompressed sig
         try:
-            if data.find("sourmash_signature") > 0:
+            if data.find("sourmash_signature") > 0 and data.lstrip().startswith("["):
                 return SigInput.BUFFER
         except TypeError:
             if data.find(b"sourmash_signature") > 0:
